@@ -1,10 +1,136 @@
-(* C13 — Range results do not depend on how the engine partitions the key space. (theorems added as proofs land) *)
-From KB Require Import Model.ReadSys Model.C03Cases Model.C13Cases.
+(* C13 — Range results do not depend on how the engine partitions the key space.
+   Property theorems only.  Model: Model/ReadSys.v (adjust_borders, scan, receivers, GetPartitions,
+   ListByStream).  The engine's GetPartitions is a parameter `parts`; `tiling ps lo hi` = ps is, in any
+   order, the list of consecutive pairs of strictly increasing borders lo < b1 < ... < hi whose interior
+   points are Enc(k, r) for any key k over the alphabet and any revision r (in a well-formed store every
+   stored key has that form). *)
+From KB Require Import Base.Cases Model.Coder Model.ReadSys Model.C03Cases Model.C13Cases
+  Proofs.Coder Proofs.ReadSys Proofs.ReadSysSnap Proofs.ReadSysThm Proofs.ReadSysSpec Proofs.ReadSysPart.
 Local Open Scope N_scope.
 
-(* finding C13-F1: partitions listed out of key order are advertised as listed *)
+(* fold splitting: the worker loop over X ++ Y is the two runs concatenated when no key occurs on both sides *)
+Theorem C13_split : forall R (V1 V2 : list (@vrec bytes)),
+  (forall y z, In y V1 -> In z V2 -> vr_key z <> vr_key y) ->
+  wrun_top R (V1 ++ V2) = wrun_top R V1 ++ wrun_top R V2.
+Proof. exact wrun_top_split. Qed.
+Print Assumptions C13_split.
+
+(* ... which is the case when the interval [lo, hi) of a store is cut at an index-record position *)
+Theorem C13_split_index : forall (V : list (@vrec bytes)) R lo k hi, wf_store V -> alpha k ->
+  bcmp lo (encode k 0) <> Gt -> bcmp (encode k 0) hi <> Gt ->
+  wrun_top R (seg V lo hi) = wrun_top R (seg V lo (encode k 0)) ++ wrun_top R (seg V (encode k 0) hi).
+Proof. exact c13_split_index. Qed.
+Print Assumptions C13_split_index.
+
+(* adjustPartitionsBorders on any tiling, listed in any order: the result is the list of consecutive
+   pairs of a chain lo = c0 <= c1 <= ... <= cn = hi (contiguous, covering [lo, hi)) whose interior
+   points are index-record positions *)
+Theorem C13_adjust : forall ps a hi, alpha a -> tiling ps (encode a 0) hi ->
+  exists cs, cs <> [] /\ adjust_borders ps = Some (pairs_of (encode a 0 :: cs)) /\
+             chain (encode a 0 :: cs) /\ Forall index_pos (removelast cs) /\ last cs (encode a 0) = hi.
+Proof. exact c13_adjust. Qed.
+Print Assumptions C13_adjust.
+
+Theorem C13_sort_any_order : forall ps ps0, Permutation ps ps0 -> StronglySorted plt ps0 -> sort_parts ps = ps0.
+Proof. exact sort_parts_of_perm. Qed.
+Print Assumptions C13_sort_any_order.
+
+(* unlimited List and Count under any tiling = the in-range snapshot = the unpartitioned answer *)
+Theorem C13_range : forall (V : list (@vrec bytes)) fv parts cur a b rev,
+  wf_store V -> alpha a -> alpha b -> bcmp a b = Lt -> floor_check fv (eff rev cur) = FOk -> valid_parts parts a b ->
+  list_model (raw_of V) fv parts cur a b rev 0 = LResp cur (in_range a b (snapshot V (eff rev cur))) false.
+Proof. exact c13_range. Qed.
+Print Assumptions C13_range.
+
+Theorem C13_range_unpartitioned : forall (V : list (@vrec bytes)) fv parts cur a b rev,
+  wf_store V -> alpha a -> alpha b -> bcmp a b = Lt -> floor_check fv (eff rev cur) = FOk -> valid_parts parts a b ->
+  list_model (raw_of V) fv parts cur a b rev 0 = list_model (raw_of V) fv single_part cur a b rev 0.
+Proof. exact c13_range_indep. Qed.
+Print Assumptions C13_range_unpartitioned.
+
+Theorem C13_count : forall (V : list (@vrec bytes)) fv parts cur a b,
+  wf_store V -> alpha a -> alpha b -> bcmp a b = Lt -> floor_check fv cur = FOk -> valid_parts parts a b ->
+  count_model (raw_of V) fv parts true cur a b = CResp cur (N.of_nat (length (in_range a b (snapshot V cur)))).
+Proof. exact c13_count. Qed.
+Print Assumptions C13_count.
+
+(* every possible stream (any interleaving of the workers' sends): data batches all name the read
+   revision, are non-empty and error-free; exactly one terminator, last; the streamed key-values are a
+   permutation of the in-range snapshot (each key once, with the unpartitioned version) *)
+Theorem C13_stream : forall (V : list (@vrec bytes)) fv parts cur a b rev out,
+  wf_store V -> alpha a -> alpha b -> bcmp a b = Lt -> floor_check fv (eff rev cur) = FOk -> valid_parts parts a b ->
+  stream_outcome (stream_model (raw_of V) fv parts cur (encode a 0) (encode b 0) rev) out ->
+  exists data, out = data ++ [term_msg (eff rev cur) false] /\ Forall (msg_ok (eff rev cur)) data /\
+               Permutation (flat_map m_kvs data) (in_range a b (snapshot V (eff rev cur))).
+Proof. exact c13_stream. Qed.
+Print Assumptions C13_stream.
+
+(* advertised keys when the engine lists its partitions in key order (fix 51e6ded): the scanner's adjusted borders *)
+Theorem C13_advertised_keys : forall bs lo, bs <> [] -> Forall border_ok (removelast bs) ->
+  advertised_keys true (pairs_of (lo :: bs)) = lo :: adj bs.
+Proof. exact advertised_sorted. Qed.
+Print Assumptions C13_advertised_keys.
+
+(* ... they ascend, interior keys are index-record positions, and the workers of the consecutive pairs
+   together emit every qualifying key exactly once: their outputs concatenate to the in-range snapshot *)
+Theorem C13_advertised : forall (V : list (@vrec bytes)) R a b bs, wf_store V -> alpha a -> alpha b -> bcmp a b = Lt ->
+  bs <> [] -> strict_chain (encode a 0 :: bs) -> last bs (encode a 0) = encode b 0 -> Forall border_ok (removelast bs) ->
+  let keys := advertised_keys true (pairs_of (encode a 0 :: bs)) in
+  chain keys /\ Forall index_pos (interior keys) /\
+  concat (map (fun p => wrun_top R (seg V (fst p) (snd p))) (pairs_of keys)) = in_range a b (snapshot V R).
+Proof. exact c13_advertised. Qed.
+Print Assumptions C13_advertised.
+
+(* full statement about the executable oracle (not proved as one lemma; its ingredients are the theorems
+   above): a case the model reproduces entirely is never an unlisted violation *)
+Definition C13_oracle_sound_full_statement : Prop :=
+  forall c, c13_check c = true -> c13_oracle c <> Some 0.
+
+(* ---------- finding C13-F1: partitions listed out of key order are advertised as listed ---------- *)
 Theorem C13_advertised_unsorted_refuted :
   exists (ps : list part), sort_parts ps <> ps /\
     advertised_keys true ps = [encode [98] 0; encode [97] 0; encode [98] 0].
 Proof. exists [(encode [98] 0, encode [99] 0); (encode [97] 0, encode [98] 0)]. split; [vm_compute; discriminate|reflexivity]. Qed.
 Print Assumptions C13_advertised_unsorted_refuted.
+
+(* ---------- non-vacuity and necessity ---------- *)
+Definition k_a : bytes := [47; 114; 47; 97].   (* "/r/a" *)
+Definition k_b : bytes := [47; 114; 47; 98].
+Definition ex_store13 : list (@vrec bytes) :=
+  [(k_a, 0, be64 105); (k_a, 101, [49]); (k_a, 103, [50]); (k_a, 105, [51]);
+   (k_a ++ [47; 98], 0, be64 106 ++ [0]); (k_a ++ [47; 98], 102, [120]); (k_a ++ [47; 98], 106, tombstone);
+   (k_b, 0, be64 104); (k_b, 104, [121])].
+
+(* three pieces, listed out of order: a border between two versions of /r/a, one on the index record of /r/b *)
+Definition ex_parts : partition_fn := fun lo hi =>
+  [(encode k_b 0, hi); (lo, encode k_a 104); (encode k_a 104, encode k_b 0)].
+
+Example C13_tiling_inhabited :
+  wf_store ex_store13 /\ valid_parts ex_parts [47; 114; 47] [47; 114; 48].
+Proof.
+  split.
+  - split; [repeat constructor|]. repeat constructor; cbn; unfold two64; lia.
+  - exists [encode k_a 104; encode k_b 0; encode [47; 114; 48] 0]. split; [discriminate|]. split.
+    + unfold ex_parts. exact (Permutation_cons_append [(_, _); (_, _)] (_, _)).
+    + split; [repeat split; vm_compute; reflexivity|]. split; [reflexivity|].
+      cbn [removelast]. repeat constructor.
+      * exists k_a, 104. split; [repeat constructor|split; [unfold two64; lia|reflexivity]].
+      * exists k_b, 0. split; [repeat constructor|split; [unfold two64; lia|reflexivity]].
+Qed.
+
+Example C13_example_run :
+  list_model (raw_of ex_store13) None ex_parts 106 [47; 114; 47] [47; 114; 48] 103 0
+    = LResp 106 [(k_a, [50], 103); (k_a ++ [47; 98], [120], 102)] false /\
+  count_model (raw_of ex_store13) None ex_parts true 106 [47; 114; 47] [47; 114; 48] = CResp 106 2 /\
+  get_partitions_model (fun lo hi => [(lo, encode k_a 104); (encode k_a 104, encode k_b 0); (encode k_b 0, hi)]) 106 [47; 114; 47] [47; 114; 48]
+    = (106, 3, [encode [47; 114; 47] 0; encode k_a 0; encode k_b 0; encode [47; 114; 48] 0]).
+Proof. repeat split; vm_compute; reflexivity. Qed.
+
+(* the alphabet hypothesis on borders is needed: a border Enc("/r/a$\0\0\0", 9) is pulled back to a position
+   inside the versions of /r/a when its revisions straddle 36 * 2^32, and /r/a is then returned twice *)
+Example C13_alphabet_needed :
+  let V := [(k_a, 0, be64 158913789952); (k_a, 5, [49]); (k_a, 158913789952, [50])] in
+  let bad := encode (k_a ++ [36; 0; 0; 0]) 9 in
+  list_model (raw_of V) None (fun lo hi => [(lo, bad); (bad, hi)]) 158913789952 [47; 114; 47] [47; 114; 48] 0 0
+    = LResp 158913789952 [(k_a, [49], 5); (k_a, [50], 158913789952)] false.
+Proof. vm_compute. reflexivity. Qed.
